@@ -154,6 +154,10 @@ class UnserError(Exception):
         raise RuntimeError("cannot serialize UnserError")
 
 
+class UserAssertion(AssertionError):
+    """AssertionError raised by generated service code, told apart from the framework's own assertions."""
+
+
 class HandlerError(Exception):
     """Raised by the harness's failing data handlers / resolvers / extractors."""
 
